@@ -97,7 +97,7 @@ contract(M + "Line.__init__",
         "fresh_cache": "all_absent(self.parse_cache)",
     },
     raises={"FortranReaderError": {"empty": "line.strip() == ''"}, "AssertionError": {}},
-    serves=["C09", "C12", "C20"],
+    serves=["C09", "C10", "C12", "C20"],      # C10: an item starts with an empty parse cache - no node can come from another item
 )
 
 contract(M + "CppDirective.__init__",
